@@ -6,6 +6,8 @@ import GocoinV.Proofs.C19CrashDefrag
 namespace GocoinV.Proofs.C19
 open GocoinV GocoinV.Qdb GocoinV.QdbSpec
 
+variable {eg : Bool}
+
 structure Inv2 (db : DB) : Prop where
   free : checkIdxFile (idxFile db.fs (1 - db.datIdx)) = none
   other : checkIdxFile (otherIdx db.fs (1 - db.datIdx)) = none ∨
@@ -41,7 +43,7 @@ theorem defrag_datIdx (db : DB) (h : Cached db) : (defrag db).datIdx = 1 - db.da
   obtain ⟨hs1, hs2, hs3, hs4, hs5, hs8, hs9⟩ := defragStart_disk db
   have hf0 : (defragStart db).failed = none := hs5.trans h.1
   obtain ⟨d', w', hfold, _, _, hrest⟩ :=
-    defragFold_layout (u32 (db.dataSeq + 1)) db.index h.2 (defragStart db) {} [] hf0
+    defragFold_layout (u32 (db.dataSeq + 1)) db.index h.2 (defragStart db) {} [] hf0 (defragStart_frame db).eager
   rw [hs3, hs2, List.nil_append] at hfold
   have hd'f : d'.failed = none := by
     have := congrArg (fun x => x.2.2.2.2.2.2.1) hrest
@@ -68,7 +70,7 @@ theorem defrag_datIdx (db : DB) (h : Cached db) : (defrag db).datIdx = 1 - db.da
   show 1 - d'.datIdx = _
   rw [hd'i]
 
-theorem defrag_diskIndex (d : DB) (h : Cached d) (hwf : IndexWF d.index) :
+theorem defrag_diskIndex (d : DB) (h : Cached d) (hwf : IndexWF eg d.index) :
     diskIndex (defrag d).fs = mapV strip (layout (u32 (d.dataSeq + 1)) 4 d.index) := by
   obtain ⟨_, _, d3, d4, d5, _, _⟩ := defrag_disk d h
   have hS : u32 (d.dataSeq + 1) < 2^32 := u32_lt _
@@ -89,7 +91,7 @@ theorem defrag_diskIndex (d : DB) (h : Cached d) (hwf : IndexWF d.index) :
   simp only [applyEntriesL, List.foldl_nil, hrecs]
   exact isetAll_nil_nodup _ hkeys
 
-theorem inv2_defrag (db : DB) (h : Cached db) (hwf : IndexWF db.index) : Inv2 (defrag db) := by
+theorem inv2_defrag (db : DB) (h : Cached db) (hwf : IndexWF eg db.index) : Inv2 (defrag db) := by
   obtain ⟨_, d2, d3, d4, d5, d6, d7⟩ := defrag_disk db h
   obtain ⟨_, _, _, _, m5⟩ := defrag_more db h
   have hdi := defrag_datIdx db h
@@ -157,7 +159,7 @@ structure Inv3 (db : DB) : Prop where
   inv : DiskInv db
   i2 : Inv2 db
 
-theorem step_inv3 (db : DB) (h : Inv3 db) (op : Op) (ok : OpOK op) (fits : OpFits db op) : Inv3 (step db op) := by
+theorem step_inv3 (db : DB) (h : Inv3 db) (op : Op) (ok : OpOK eg op) (fits : OpFits db op) : Inv3 (step db op) := by
   refine ⟨step_inv db h.inv op ok fits, ?_⟩
   have inv := h.inv
   have i2 := h.i2
@@ -230,7 +232,7 @@ theorem step_inv3 (db : DB) (h : Inv3 db) (op : Op) (ok : OpOK op) (fits : OpFit
     exact inv2_same i2 rfl rfl rfl rfl
   | reopen a b c => exact absurd ok (by simp [OpOK])
 
-theorem run_inv3 (ops : List Op) (db : DB) (h : Inv3 db) (ok : ∀ op ∈ ops, OpOK op) (fits : RunFits db ops) :
+theorem run_inv3 (ops : List Op) (db : DB) (h : Inv3 db) (ok : ∀ op ∈ ops, OpOK eg op) (fits : RunFits db ops) :
     Inv3 (run db ops) := by
   induction ops generalizing db with
   | nil => exact h
@@ -238,9 +240,9 @@ theorem run_inv3 (ops : List Op) (db : DB) (h : Inv3 db) (ok : ∀ op ∈ ops, O
     exact ih (step db op) (step_inv3 db h op (ok op List.mem_cons_self) fits.1)
       (fun o ho => ok o (List.mem_cons_of_mem _ ho)) fits.2
 
-theorem fresh_inv3 (load : Bool) (opts : Opts) : Inv3 (openDB {} false load opts) := by
+theorem fresh_inv3 (load : Bool) (opts : Opts) : Inv3 (openDB {} false load opts eg) := by
   refine ⟨fresh_inv load opts, ?_⟩
-  have e : openDB {} false load opts = { fs := {}, volatile := false, opts := opts, dataSeq := 1 } := by
+  have e : openDB {} false load opts eg = { fs := {}, volatile := false, opts := opts, dataSeq := 1 } := by
     cases load <;> rfl
   rw [e]
   exact ⟨rfl, Or.inl rfl, by intro kr h; cases h⟩
